@@ -433,6 +433,16 @@ def sym_abs(x):
     return abs(x)
 
 
+def poly_equal(x, y):
+    """True when x - y normalises to 0 as a polynomial (sum-of-monomials simplification): lets polynomial identities be
+    discharged syntactically instead of by non-linear solver queries"""
+    try:
+        d = z3.simplify(zr(x) - zr(y), som=True)
+    except Unsupported:
+        return False
+    return z3.is_rational_value(d) and d.numerator_as_long() == 0
+
+
 def ite(c, a, b):
     """non-forking if-then-else over proxies (for oracles: they must not branch)"""
     c = zb(c)
@@ -450,6 +460,24 @@ def smax(a, b):
 
 
 # ------------------------------------------------------------------------ explorer
+def _zero_product(e):
+    """x*y*.. == 0  ->  x == 0 or y == 0 or ..  (keeps the solver out of non-linear reasoning for zero tests)"""
+    if z3.is_not(e):
+        r = _zero_product(e.arg(0))
+        return e if r is e.arg(0) else z3.Not(r)
+    if z3.is_eq(e) and e.num_args() == 2:
+        a, b = e.arg(0), e.arg(1)
+        if z3.is_mul(b) and z3.is_rational_value(a):
+            a, b = b, a
+        if z3.is_mul(a) and z3.is_rational_value(b) and b.numerator_as_long() == 0:
+            fs = [x for x in a.children() if not z3.is_rational_value(x)]
+            if any(z3.is_rational_value(x) and x.numerator_as_long() == 0 for x in a.children()):
+                return z3.BoolVal(True)
+            if fs:
+                return z3.Or([x == 0 for x in fs]) if len(fs) > 1 else (fs[0] == 0)
+    return e
+
+
 def _shape(e):
     """cheap, argument-order-insensitive fingerprint of a decision (z3.simplify orders commutative arguments by AST id,
     which differs between runs, so a structural hash cannot be used): used to notice gross replay divergence"""
@@ -543,7 +571,7 @@ class Explorer:
             raise Abort()
 
     def decide(self, e):
-        e = z3.simplify(e)
+        e = _zero_product(z3.simplify(e))
         if z3.is_true(e):
             return True
         if z3.is_false(e):
